@@ -110,7 +110,11 @@ Inductive case :=
 | CQStress (top height napplied : N)
 (* [blks]: blocks offered in the blocks stage under the genuine header: variant (0 genuine, 1 stripped, 2 one transaction
    dropped, 3 reordered, 4 one replaced), transactions of the source block, transactions delivered, accepted *)
-| CSync (root : N) (T : tree) (ops : list sop) (obs : list sobs) (blks : list (N * N * N * bool)).
+| CSync (root : N) (T : tree) (ops : list sop) (obs : list sobs) (blks : list (N * N * N * bool))
+(* crash points of one synchronisation over a recording backend: stage in which the last durable batch was written
+   (0 start, 1 init, 2 headers, 3 MPT, 4 blocks, 5 jump, 6 blocks after the jump, 7 shutdown) and whether the node restarted
+   from that durable state finished the synchronisation with the source's state roots and storage, in lockstep *)
+| CCrash (points : list (N * bool)).
 
 Definition check_case (c : case) : N :=
   match c with
@@ -130,6 +134,9 @@ Definition check_case (c : case) : N :=
       if m && s then 0 else if s then 1 else 2
   | CQStress top hf napp =>
       if (hf =? top) && (napp =? top) then 0 else 2
+  | CCrash points =>
+      (* Sync/Crash.v crash_restart_converges: every prefix of the batches is a durable state the node recovers from *)
+      if forallb (fun x => snd x) points then 0 else 2
   | CSync root T ops obs blks =>
       let fuel := S (S (length T)) in
       let go := fun (cf : bool * bool) => srun (fst cf) (snd cf) fuel T root (Some (Restore.init root)) ops obs in
